@@ -15,7 +15,7 @@ LEVEL = ("Static structural conditions: every ADT reachable through field types 
          "Settings::new_chain and everything it calls reads no ambient state (statics, clock, entropy, environment), so equal settings, "
          "chain id and RNG give an equal chain (R3); every field of a settings struct is read by the code that builds or runs the chain "
          "- no field is silently ignored after deserialisation (R4). Text round trip of floats and non-finite values are not decided."
-         " Added: no settings field is (de)serialised through a custom function (deserialize_with / serialize_with) (R1).")
+         " Added: no settings field is (de)serialised through a custom function (deserialize_with / serialize_with) (R1); the serialised value reaches the Zarr attribute untouched and the root group is written by new_trace only (R2); serde_json is built with float_roundtrip (R5, manifest).")
 EXPLANATION = ("ADT/impl/attribute facts from the type-checked crate (derive provenance from macro expansion spans), type-closure computation with "
                "generic substitution, value provenance of the settings reference in the controller MIR, who-may-call for ambient state.")
 TRUSTED = ["rustc nightly", "nutsfacts extractor", "rules/c19.py, rules/tys.py", "serde_derive: derived Serialize/Deserialize without attributes are mutual inverses through serde_json::Value"]
@@ -416,6 +416,35 @@ def r4(F, R, seen):
         R.info("C19-R4", "settings field never read by library code: %s" % u)
 
 
+def r5(F, R):
+    """JSON text carries every f64 exactly."""
+    import os
+    R.rule("C19-R5", "the crate's own dependency on serde_json enables `float_roundtrip` (Cargo.toml): without it serde_json's number parser is the fast one, which is "
+                     "off by one ulp for roughly one f64 in ten, so settings with arbitrary finite f64 fields do not survive to_string -> from_str (in builds where no "
+                     "other dependency happens to switch the feature on)")
+    repo = (F.meta or {}).get("repo") or "/repo"
+    mp = os.path.join(repo, "Cargo.toml")
+    try:
+        import tomllib
+        man = tomllib.load(open(mp, "rb"))
+    except Exception as ex:      # noqa: BLE001
+        R.missing("C19-R5", "Cargo.toml of the crate (%s)" % ex)
+        return
+    dep = (man.get("dependencies") or {}).get("serde_json")
+    key = "Cargo.toml:serde_json"
+    if dep is None:
+        R.missing("C19-R5", "serde_json in [dependencies]")
+        return
+    feats = dep.get("features", []) if isinstance(dep, dict) else []
+    if "float_roundtrip" in feats:
+        R.ok("C19-R5", key, "Cargo.toml", "serde_json features %s" % feats)
+    else:
+        R.bad("C19-R5", key, "Cargo.toml", "serde_json is used with features %s: f64 settings fields are parsed inexactly from JSON text (1 ulp) unless another "
+              "dependency enables float_roundtrip (the `zarr` feature does, the default build does not)" % (feats or "[]"))
+    R.floor("C19-R5", 1)
+
+
+
 def run(F, R, config=None):
     seen = r1(F, R)
     if "parallel" in C10.features(F):
@@ -424,6 +453,7 @@ def run(F, R, config=None):
         R.not_evaluated.append("C19-R2: feature `parallel` off in this configuration")
     r3(F, R)
     r4(F, R, seen)
+    r5(F, R)
     R.assume("serde_derive: #[derive(Serialize, Deserialize)] without attributes are mutual inverses through serde_json::Value for structs/enums of scalars, Option and nested such types")
     R.assume("serde_json::Value represents every finite f64 and every u64 exactly (non-finite floats are excluded by the property)")
 
